@@ -13,7 +13,8 @@ HIST = ["dropped_length", "dropped_type", "mac1_fails", "static_does_not_open", 
         "transcript_fails", "response_accepted", "tun_initiation", "tun_spacing_blocks", "tun_transport", "shift_hook",
         "restart", "ambiguous_flood_steps", "tun_unknown_peer", "valid_mac1_under_load_cookie_reply",
         "under_load_toggles", "gate_or_mac1_fails_under_load", "concurrent_initiation_burst_one_leaves", "burst_blocked_by_spacing",
-        "peer_removed_with_timer_callback_in_flight"]
+        "peer_removed_with_timer_callback_in_flight", "window_response_consumed_then_superseded_no_session",
+        "window_response_consumed_handshake_untouched_session", "window_response_not_consumable_sequential"]
 
 
 def executed(case):
@@ -45,11 +46,11 @@ class Prop:
             "timestamps from several addresses, response to a pre-restart initiation; responses whose receiver is replaced (MAC1 recomputed) by every "
             "index the device ever issued for the peer (session indices in next/current/previous, deleted ones) while a new initiation is outstanding; "
             "valid initiations with crafted increasing timestamps fired back to back (judged against the 1/50 s of the property text with the "
-            "conservative bound settle-time(second) - inject-time(first) < 20 ms), also with a Down/Up right after the answered one; RemovePeer while the peer's retransmit-handshake timer callback is in flight (parked on the static identity): afterwards the response to the initiation that callback sent, replays, session-index responses and initiations of the removed peer must be inert; 4..12 goroutines calling SendHandshakeInitiation at once (48+ rounds): exactly one initiation may leave; device-emitted timestamps across a restart only in "
+            "conservative bound settle-time(second) - inject-time(first) < 20 ms), also with a Down/Up right after the answered one; RemovePeer while the peer's retransmit-handshake timer callback is in flight (parked on the static identity): afterwards the response to the initiation that callback sent, replays, session-index responses and initiations of the removed peer must be inert; 4..12 goroutines calling SendHandshakeInitiation at once (48+ rounds): exactly one initiation may leave; an event INSIDE the response-processing window of a handshake worker (the worker is parked on its own log line between ConsumeMessageResponse and BeginSymmetricSession through a harness-owned device.Logger): time shift + SendHandshakeInitiation (a new initiation leaves), SendHandshakeInitiation inside RekeyTimeout, the peer's fresh / replayed / older initiation, the other peer's initiation, a second response — then the answer to the most recent initiation, replays, responses for every issued index, a fresh initiation and TUN data; device-emitted timestamps across a restart only in "
             "the dedicated F7 scenario; non-trivial = scenario with at least one accepted and one inert handshake message; distinct by content hash")
     assumptions = ["messages whose MAC1 does not verify (or that fail the size/type gate) must be silent and inert under load too; for messages with a "
                    "valid MAC1 the no-reply clauses are for a device not under load (under load the cookie reply is C10's business and is only mirrored, not judged)",
-                   "one datagram at a time with quiescence in between (no two initiations of one peer race through the handshake workers)",
+                   "one datagram at a time with quiescence in between (no two initiations of one peer race through the handshake workers), except the response-window steps: exactly one event placed between ConsumeMessageResponse and BeginSymmetricSession of a parked handshake worker",
                    "instants are not before 1970; tai64n seconds do not wrap (true for every int64 Unix time)",
                    "the 20 ms flood gap is exercised at <5 ms and >40 ms; steps whose measured gap falls in [5 ms, 40 ms] accept either outcome (counted)",
                    "message types 3/4 substituted into handshake bytes leave the slice (cookie/transport paths) and are only checked to be inert"]
@@ -170,6 +171,12 @@ class Prop:
                 return "equal-timestamps-after-restart"
             return "emitted-timestamps-not-increasing-without-restart"
         m = step.get("msg") or {}
+        if step.get("op") == "resp_window":
+            # a response whose handshake worker was overtaken between ConsumeMessageResponse and BeginSymmetricSession
+            inner = step.get("wact", "?")
+            if inner == "msg":
+                inner = "peer-" + (step.get("wmsg") or {}).get("kind", "msg")
+            return "%s:response-window:%s" % (CLAUSES.get(clause, "clause%d" % clause), inner)
         alt = "+".join(sorted({mu["op"] + (":" + str(mu["v"]) if mu["op"] == "subst" else "") for mu in m.get("muts", [])})) or "unaltered"
         if m.get("lendelta"):
             alt += "+len"
